@@ -351,14 +351,34 @@ func featureCases() []caseRec {
 	fs := []string{"f1", "f2", "f3"}
 	for _, sn := range shapeNames {
 		deps := shapes[sn]
-		// homes: bit i set = feature f(i+1) is defined in the imported module b.  A feature of b
-		// can only depend on features of b (b does not import a).
-		for homes := 0; homes < 8; homes++ {
-			inB := func(f string) bool { return homes&(1<<(int(f[1]-'1'))) != 0 }
+		// homes: base-3 digit i = where feature f(i+1) is defined: 0 module a, 1 the imported module b,
+		// 2 submodule s of a.  A feature of b or of s can only depend on features of its own (sub)module;
+		// a feature or node of a may name features of a, b and s.
+		for homes := 0; homes < 27; homes++ {
+			homeOf := func(f string) int {
+				h := homes
+				for k := int(f[1] - '1'); k > 0; k-- {
+					h /= 3
+				}
+				return h % 3
+			}
+			inB := func(f string) bool { return homeOf(f) == 1 }
+			inS := func(f string) bool { return homeOf(f) == 2 }
 			closed := true
 			for _, f := range fs {
 				for _, d := range deps[f] {
-					if inB(f) && !inB(d) {
+					if homeOf(f) != 0 && homeOf(d) != homeOf(f) {
+						closed = false
+					}
+				}
+			}
+			// A feature of the submodule named from the module itself (or from a node of the module) is
+			// not found by this compiler ("feature not valid"): definitions of submodules are only
+			// visible inside the submodule.  The property speaks about the tree of modules that
+			// compile; whether such a module must compile is not part of it - those splits are skipped.
+			for _, f := range fs {
+				for _, d := range deps[f] {
+					if homeOf(f) == 0 && homeOf(d) == 2 {
 						closed = false
 					}
 				}
@@ -375,11 +395,13 @@ func featureCases() []caseRec {
 				}
 				return f
 			}
-			var declA, declB strings.Builder
+			var declA, declB, declS strings.Builder
 			for _, f := range fs {
 				home, decl := "a", &declA
 				if inB(f) {
 					home, decl = "b", &declB
+				} else if inS(f) {
+					home, decl = "s", &declS
 				}
 				fmt.Fprintf(decl, "feature %s {", f)
 				for _, d := range deps[f] {
@@ -387,13 +409,21 @@ func featureCases() []caseRec {
 				}
 				decl.WriteString(" } ")
 			}
+			anyB, anyS := declB.Len() > 0, declS.Len() > 0
 			for i := 0; i < 64; i++ {
 				p := [3]string{opts[i%4], opts[(i/4)%4], opts[(i/16)%4]}
+				if (p[0] != "" && inS(p[0])) || (p[1] != "" && inS(p[1])) || (p[2] != "" && inS(p[2])) {
+					continue // a node of the module guarded by a feature of the submodule: see above
+				}
 				mods := map[string]string{}
 				head := hdr
-				if homes != 0 {
-					head = hdr + "import b { prefix b; } "
+				if anyB {
+					head += "import b { prefix b; } "
 					mods["b"] = "module b { namespace \"urn:b\"; prefix b; " + declB.String() + "}"
+				}
+				if anyS {
+					head += "include s; "
+					mods["s"] = "submodule s { belongs-to a { prefix a; } " + declS.String() + "}"
 				}
 				mods["a"] = head + declA.String() + fmt.Sprintf("container c1 {%s container c2 {%s leaf l {%s type string; } } leaf m { type string; } }", stmt("if-feature", ref("a", p[0])), stmt("if-feature", ref("a", p[1])), stmt("if-feature", ref("a", p[2]))) + " }"
 				for mask := 0; mask < 8; mask++ {
